@@ -5,7 +5,8 @@
     and the tail of Hydrodynamics.findHydroBoundaries (sign conventions of c1, velocityMid).
     External numerics are fields of the generated record [env]:
       derivT, evaluate        the effective potential and its T-derivative (any functions);
-      minimize_bounded        scipy.optimize.minimize_scalar(method="Bounded") -> .x
+      minimize_bounded        scipy.optimize.minimize_scalar(method="Bounded", options={xatol}) -> .x
+                              (the generated call hands it the translated xatol)
       root_bracketed          scipy.optimize.root_scalar(bracket=, xtol=, rtol=) -> .root
                               (the generated call hands it the translated xtol and rtol)
     and are constrained only by explicit hypotheses of the theorems that need them. *)
@@ -43,7 +44,9 @@ Proof.
 Qed.
 
 (** the stopping tolerances that the generated call hands to the root finder *)
-Definition XTOL : R := 1 / 10000000000.
+Definition XTOL (e : env) : R := 1 / 10000000000 * Tnucl e.
+(** ... and to the bounded minimiser (absolute tolerance on the position, proportional to the scale) *)
+Definition XATOL (Tplus Tminus : R) : R := 1 / 10000000 * Rmax Tplus Tminus.
 Definition RTOL (e : env) : R := errTol e / 10.
 
 (** ** T^{30}: the generated velocity solves  w gamma^2(v) v = s1,  |v| < 1, uniquely *)
@@ -282,13 +285,14 @@ Variables (index : nat) (c1 c2 velocityMid : R) (fields dPhidz : FieldPt) (D : D
 Let s1 := c1 - fst (deltaToTmunu e index fields velocityMid D).
 Let s2 := c2 - snd (deltaToTmunu e index fields velocityMid D).
 Let F := fun T : R => temperatureProfileEqLHS e fields dPhidz T s1 s2.
-Let tmin := minimize_bounded e F 0 (2 * Rmax Tplus Tminus).
+Let tmin := minimize_bounded e F 0 (2 * Rmax Tplus Tminus) (XATOL Tplus Tminus).
 (** the branch rule of the source *)
-Let detonation := Rabs (Tnucl e - Tplus) < 1 / 10 ^ 10.
+Let detonation := Rabs (Tnucl e - Tplus) < 1 / 10 ^ 10 * Tnucl e.
 (** bring the unfolded generated body to the named quantities, up to ring-equal rewritings of
     s1, s2 and of the minimiser's bounds (so that harmless reorderings of the source still prove) *)
 Ltac norm_point :=
-  match goal with |- context [minimize_bounded e (fun T : R => temperatureProfileEqLHS e fields dPhidz T ?a ?b) ?lo ?hi] =>
+  match goal with |- context [minimize_bounded e (fun T : R => temperatureProfileEqLHS e fields dPhidz T ?a ?b) ?lo ?hi ?xa] =>
+    replace xa with (XATOL Tplus Tminus) by (unfold XATOL; first [ring | rewrite (Rmax_comm Tplus Tminus); ring]);
     replace a with s1 by (unfold s1; ring);
     replace b with s2 by (unfold s2; ring);
     replace lo with 0 by ring;
@@ -305,7 +309,7 @@ Inductive outcome (T v : R) : Prop :=
     F tmin < 0 -> (if det then detonation else ~ detonation) ->
     a = tmin * multiplier det ^ k -> b = a * multiplier det ->
     F a < 0 -> 0 <= F b ->
-    T = root_bracketed e F a b XTOL (RTOL e) -> v = plasmaVelocity e fields T s1 -> outcome T v.
+    T = root_bracketed e F a b (XTOL e) (RTOL e) -> v = plasmaVelocity e fields T s1 -> outcome T v.
 
 Lemma point_cases :
   exists T v, findPlasmaProfilePoint e index c1 c2 velocityMid fields dPhidz D Tplus Tminus = Some (T, v)
@@ -314,12 +318,12 @@ Proof.
   unfold findPlasmaProfilePoint. rewrite let_pair. cbv zeta.
   norm_point.
   change (fun T : R => temperatureProfileEqLHS e fields dPhidz T s1 s2) with F.
-  change (minimize_bounded e F 0 (2 * Rmax Tplus Tminus)) with tmin.
+  change (minimize_bounded e F 0 (2 * Rmax Tplus Tminus) (XATOL Tplus Tminus)) with tmin.
   change (temperatureProfileEqLHS e fields dPhidz tmin s1 s2) with (F tmin).
   destruct (Rle_dec 0 (F tmin)) as [Hpos|Hneg].
   { eexists; eexists; split; [reflexivity|]. apply early_return; [assumption|reflexivity|reflexivity]. }
   assert (Hlt : F tmin < 0) by lra.
-  destruct (Rlt_dec (Rabs (Tnucl e - Tplus)) (1 / 10000000000)) as [Hdet|Hdet].
+  destruct (Rlt_dec (Rabs (Tnucl e - Tplus)) (1 / 10000000000 * Tnucl e)) as [Hdet|Hdet].
   - (* detonation branch *)
     assert (Hd : detonation) by (unfold detonation; replace (1 / 10 ^ 10) with (1 / 10000000000) by lra; exact Hdet).
     pose proof (loop_terminates e fields dPhidz s1 s2 (Rmin (Tminus / tmin) (4 / 5)) 200
@@ -355,7 +359,7 @@ Proof.
   intro Hpos. unfold findPlasmaProfilePoint. rewrite let_pair. cbv zeta.
   norm_point.
   change (fun T : R => temperatureProfileEqLHS e fields dPhidz T s1 s2) with F.
-  change (minimize_bounded e F 0 (2 * Rmax Tplus Tminus)) with tmin.
+  change (minimize_bounded e F 0 (2 * Rmax Tplus Tminus) (XATOL Tplus Tminus)) with tmin.
   change (temperatureProfileEqLHS e fields dPhidz tmin s1 s2) with (F tmin).
   destruct (Rle_dec 0 (F tmin)); [reflexivity|contradiction].
 Qed.
@@ -365,18 +369,18 @@ Lemma point_eval_root (det : bool) (k : nat) :
   let M := multiplier det in
   (forall j, (j < k)%nat -> F (tmin * M * M ^ j) < 0) -> 0 <= F (tmin * M * M ^ k) ->
   findPlasmaProfilePoint e index c1 c2 velocityMid fields dPhidz D Tplus Tminus
-  = Some (root_bracketed e F (tmin * M ^ k) (tmin * M * M ^ k) XTOL (RTOL e),
-          plasmaVelocity e fields (root_bracketed e F (tmin * M ^ k) (tmin * M * M ^ k) XTOL (RTOL e)) s1).
+  = Some (root_bracketed e F (tmin * M ^ k) (tmin * M * M ^ k) (XTOL e) (RTOL e),
+          plasmaVelocity e fields (root_bracketed e F (tmin * M ^ k) (tmin * M * M ^ k) (XTOL e) (RTOL e)) s1).
 Proof.
   intros Hneg Hdet Hk M Hj Hpos. unfold findPlasmaProfilePoint. rewrite let_pair. cbv zeta.
   norm_point.
   change (fun T : R => temperatureProfileEqLHS e fields dPhidz T s1 s2) with F.
-  change (minimize_bounded e F 0 (2 * Rmax Tplus Tminus)) with tmin.
+  change (minimize_bounded e F 0 (2 * Rmax Tplus Tminus) (XATOL Tplus Tminus)) with tmin.
   change (temperatureProfileEqLHS e fields dPhidz tmin s1 s2) with (F tmin).
   destruct (Rle_dec 0 (F tmin)); [lra|].
   assert (Hi : 0 + INR k <= 101). { apply le_INR in Hk. replace (INR 100) with 100 in Hk by (simpl; lra). lra. }
   assert (Hp : ~ F (tmin * M * M ^ k) < 0) by lra.
-  destruct (Rlt_dec (Rabs (Tnucl e - Tplus)) (1 / 10000000000)) as [Hd|Hd]; destruct det; cbn [multiplier] in *;
+  destruct (Rlt_dec (Rabs (Tnucl e - Tplus)) (1 / 10000000000 * Tnucl e)) as [Hd|Hd]; destruct det; cbn [multiplier] in *;
     try (exfalso; unfold detonation in Hdet; replace (1 / 10 ^ 10) with (1 / 10000000000) in Hdet by lra; tauto).
   - rewrite (loop_eval e fields dPhidz s1 s2 _ k 200 tmin _ 0 eq_refl); [reflexivity | lia | exact Hi | exact Hj | exact Hp].
   - rewrite (loop_eval e fields dPhidz s1 s2 _ k 200 tmin _ 0 eq_refl); [reflexivity | lia | exact Hi | exact Hj | exact Hp].
@@ -386,7 +390,7 @@ Qed.
     on a sign-change bracket it returns a zero lying between the ends *)
 Definition root_contract :=
   forall a b, F a < 0 -> 0 <= F b ->
-    F (root_bracketed e F a b XTOL (RTOL e)) = 0 /\ Rmin a b <= root_bracketed e F a b XTOL (RTOL e) <= Rmax a b.
+    F (root_bracketed e F a b (XTOL e) (RTOL e)) = 0 /\ Rmin a b <= root_bracketed e F a b (XTOL e) (RTOL e) <= Rmax a b.
 
 (** Conservation: whenever the point solver takes the root path, both components of the
     energy-momentum tensor are reproduced exactly; on EVERY path T^{30} is reproduced and the
@@ -486,21 +490,21 @@ Lemma point_accuracy T v :
   findPlasmaProfilePoint e index c1 c2 velocityMid fields dPhidz D Tplus Tminus = Some (T, v) ->
   (T, v) <> (0, 0) -> F tmin < 0 -> root_contract_tol ->
   exists r lo hi, lo <= r <= hi /\ lo <= T <= hi /\ F r = 0 /\
-    Rabs (T - r) <= 1 / 10 ^ 10 + errTol e / 10 * Rabs r /\
+    Rabs (T - r) <= 1 / 10 ^ 10 * Tnucl e + errTol e / 10 * Rabs r /\
     forall L, 0 <= L ->
       (forall x y, lo <= x <= hi -> lo <= y <= hi -> Rabs (F x - F y) <= L * Rabs (x - y)) ->
-      Rabs (F T) <= L * (1 / 10 ^ 10 + errTol e / 10 * Rabs r).
+      Rabs (F T) <= L * (1 / 10 ^ 10 * Tnucl e + errTol e / 10 * Rabs r).
 Proof.
   intros H Hnz Hneg RC.
   destruct point_cases as [T' [v' [H' O]]]. rewrite H in H'. injection H' as <- <-.
   destruct O as [Hpos _ _ | _ -> -> | det a b k _ _ _ _ Fa Fb -> _]; [lra | exfalso; apply Hnz; reflexivity |].
-  destruct (RC a b XTOL (RTOL e) Fa Fb) as [Hin [r [Hr [Fr Hd]]]].
+  destruct (RC a b (XTOL e) (RTOL e) Fa Fb) as [Hin [r [Hr [Fr Hd]]]].
   exists r, (Rmin a b), (Rmax a b). split; [exact Hr|]. split; [exact Hin|]. split; [exact Fr|].
-  assert (E : Rabs (root_bracketed e F a b XTOL (RTOL e) - r) <= 1 / 10 ^ 10 + errTol e / 10 * Rabs r).
+  assert (E : Rabs (root_bracketed e F a b (XTOL e) (RTOL e) - r) <= 1 / 10 ^ 10 * Tnucl e + errTol e / 10 * Rabs r).
   { unfold XTOL, RTOL in Hd. replace (1 / 10 ^ 10) with (1 / 10000000000) by lra. exact Hd. }
   split; [exact E|].
   intros L HL Lip.
-  specialize (Lip (root_bracketed e F a b XTOL (RTOL e)) r Hin Hr). rewrite Fr, Rminus_0_r in Lip.
+  specialize (Lip (root_bracketed e F a b (XTOL e) (RTOL e)) r Hin Hr). rewrite Fr, Rminus_0_r in Lip.
   eapply Rle_trans; [exact Lip|]. apply Rmult_le_compat_l; assumption.
 Qed.
 End Point.
@@ -677,14 +681,14 @@ Theorem profile_point_conserves : forall e index c1 c2 velocityMid fields dPhidz
   let Tout30 := fst (deltaToTmunu e index fields velocityMid D) in
   let Tout33 := snd (deltaToTmunu e index fields velocityMid D) in
   let F := fun T : R => temperatureProfileEqLHS e fields dPhidz T (c1 - Tout30) (c2 - Tout33) in
-  let tmin := minimize_bounded e F 0 (2 * Rmax Tplus Tminus) in
+  let tmin := minimize_bounded e F 0 (2 * Rmax Tplus Tminus) (XATOL Tplus Tminus) in
   findPlasmaProfilePoint e index c1 c2 velocityMid fields dPhidz D Tplus Tminus = Some (T, v) ->
   (T, v) <> (0, 0) -> 0 < - T * derivT e fields T -> c1 - Tout30 <> 0 ->
   let w := - T * derivT e fields T in
   w * gammaSq v * v + Tout30 = c1 /\ -1 < v < 1 /\
   1 / 2 * sum_list (map (fun x : R => x ^ 2) dPhidz) - evaluate e fields T + w * gammaSq v * v ^ 2 + Tout33 - c2 = F T /\
   (F tmin < 0 ->
-   (forall a b, F a < 0 -> 0 <= F b -> F (root_bracketed e F a b XTOL (RTOL e)) = 0 /\ Rmin a b <= root_bracketed e F a b XTOL (RTOL e) <= Rmax a b) ->
+   (forall a b, F a < 0 -> 0 <= F b -> F (root_bracketed e F a b (XTOL e) (RTOL e)) = 0 /\ Rmin a b <= root_bracketed e F a b (XTOL e) (RTOL e) <= Rmax a b) ->
    F T = 0).
 Proof. intros e index c1 c2 velocityMid fields dPhidz D Tplus Tminus T v. exact (point_conserves e index c1 c2 velocityMid fields dPhidz D Tplus Tminus T v). Qed.
 Print Assumptions profile_point_conserves.
@@ -693,12 +697,12 @@ Theorem branch_rule : forall e index c1 c2 velocityMid fields dPhidz D Tplus Tmi
   let Tout30 := fst (deltaToTmunu e index fields velocityMid D) in
   let Tout33 := snd (deltaToTmunu e index fields velocityMid D) in
   let F := fun T : R => temperatureProfileEqLHS e fields dPhidz T (c1 - Tout30) (c2 - Tout33) in
-  let tmin := minimize_bounded e F 0 (2 * Rmax Tplus Tminus) in
+  let tmin := minimize_bounded e F 0 (2 * Rmax Tplus Tminus) (XATOL Tplus Tminus) in
   findPlasmaProfilePoint e index c1 c2 velocityMid fields dPhidz D Tplus Tminus = Some (T, v) ->
   (T, v) <> (0, 0) -> F tmin < 0 -> 0 < tmin -> 0 < Tminus ->
-  (forall a b, F a < 0 -> 0 <= F b -> F (root_bracketed e F a b XTOL (RTOL e)) = 0 /\ Rmin a b <= root_bracketed e F a b XTOL (RTOL e) <= Rmax a b) ->
-  (~ Rabs (Tnucl e - Tplus) < 1 / 10 ^ 10 -> tmin <= T) /\
-  (Rabs (Tnucl e - Tplus) < 1 / 10 ^ 10 -> 0 < T <= tmin).
+  (forall a b, F a < 0 -> 0 <= F b -> F (root_bracketed e F a b (XTOL e) (RTOL e)) = 0 /\ Rmin a b <= root_bracketed e F a b (XTOL e) (RTOL e) <= Rmax a b) ->
+  (~ Rabs (Tnucl e - Tplus) < 1 / 10 ^ 10 * Tnucl e -> tmin <= T) /\
+  (Rabs (Tnucl e - Tplus) < 1 / 10 ^ 10 * Tnucl e -> 0 < T <= tmin).
 Proof. intros e index c1 c2 velocityMid fields dPhidz D Tplus Tminus T v. exact (point_branch e index c1 c2 velocityMid fields dPhidz D Tplus Tminus T v). Qed.
 Print Assumptions branch_rule.
 
@@ -708,15 +712,15 @@ Theorem bracket_is_first_sign_change : forall e index c1 c2 velocityMid fields d
   let Tout30 := fst (deltaToTmunu e index fields velocityMid D) in
   let Tout33 := snd (deltaToTmunu e index fields velocityMid D) in
   let F := fun T : R => temperatureProfileEqLHS e fields dPhidz T (c1 - Tout30) (c2 - Tout33) in
-  let tmin := minimize_bounded e F 0 (2 * Rmax Tplus Tminus) in
+  let tmin := minimize_bounded e F 0 (2 * Rmax Tplus Tminus) (XATOL Tplus Tminus) in
   let M := if det then Rmin (Tminus / tmin) (4 / 5) else Rmax (Tplus / tmin) (6 / 5) in
   F tmin < 0 ->
-  (if det then Rabs (Tnucl e - Tplus) < 1 / 10 ^ 10 else ~ Rabs (Tnucl e - Tplus) < 1 / 10 ^ 10) ->
+  (if det then Rabs (Tnucl e - Tplus) < 1 / 10 ^ 10 * Tnucl e else ~ Rabs (Tnucl e - Tplus) < 1 / 10 ^ 10 * Tnucl e) ->
   (k <= 100)%nat ->
   (forall j, (j < k)%nat -> F (tmin * M * M ^ j) < 0) -> 0 <= F (tmin * M * M ^ k) ->
   findPlasmaProfilePoint e index c1 c2 velocityMid fields dPhidz D Tplus Tminus
-  = Some (root_bracketed e F (tmin * M ^ k) (tmin * M * M ^ k) XTOL (RTOL e),
-          plasmaVelocity e fields (root_bracketed e F (tmin * M ^ k) (tmin * M * M ^ k) XTOL (RTOL e)) (c1 - Tout30)).
+  = Some (root_bracketed e F (tmin * M ^ k) (tmin * M * M ^ k) (XTOL e) (RTOL e),
+          plasmaVelocity e fields (root_bracketed e F (tmin * M ^ k) (tmin * M * M ^ k) (XTOL e) (RTOL e)) (c1 - Tout30)).
 Proof. intros e index c1 c2 velocityMid fields dPhidz D Tplus Tminus det k. exact (point_eval_root e index c1 c2 velocityMid fields dPhidz D Tplus Tminus det k). Qed.
 Print Assumptions bracket_is_first_sign_change.
 
@@ -726,9 +730,9 @@ Theorem no_bracket_returns_zero : forall e index c1 c2 velocityMid fields dPhidz
   let Tout30 := fst (deltaToTmunu e index fields velocityMid D) in
   let Tout33 := snd (deltaToTmunu e index fields velocityMid D) in
   let F := fun T : R => temperatureProfileEqLHS e fields dPhidz T (c1 - Tout30) (c2 - Tout33) in
-  let tmin := minimize_bounded e F 0 (2 * Rmax Tplus Tminus) in
+  let tmin := minimize_bounded e F 0 (2 * Rmax Tplus Tminus) (XATOL Tplus Tminus) in
   let M := Rmin (Tminus / tmin) (4 / 5) in
-  F tmin < 0 -> Rabs (Tnucl e - Tplus) < 1 / 10 ^ 10 -> 0 < tmin -> 0 < M <= 1 -> tmin * M <= B ->
+  F tmin < 0 -> Rabs (Tnucl e - Tplus) < 1 / 10 ^ 10 * Tnucl e -> 0 < tmin -> 0 < M <= 1 -> tmin * M <= B ->
   (forall T, 0 < T <= B -> F T < 0) ->
   findPlasmaProfilePoint e index c1 c2 velocityMid fields dPhidz D Tplus Tminus = Some (0, 0).
 Proof. intros e index c1 c2 velocityMid fields dPhidz D Tplus Tminus B. exact (point_eval_gaveup e index c1 c2 velocityMid fields dPhidz D Tplus Tminus B). Qed.
@@ -738,7 +742,7 @@ Theorem no_root_returns_minimum : forall e index c1 c2 velocityMid fields dPhidz
   let Tout30 := fst (deltaToTmunu e index fields velocityMid D) in
   let Tout33 := snd (deltaToTmunu e index fields velocityMid D) in
   let F := fun T : R => temperatureProfileEqLHS e fields dPhidz T (c1 - Tout30) (c2 - Tout33) in
-  let tmin := minimize_bounded e F 0 (2 * Rmax Tplus Tminus) in
+  let tmin := minimize_bounded e F 0 (2 * Rmax Tplus Tminus) (XATOL Tplus Tminus) in
   0 <= F tmin ->
   findPlasmaProfilePoint e index c1 c2 velocityMid fields dPhidz D Tplus Tminus
   = Some (tmin, plasmaVelocity e fields tmin (c1 - Tout30)).
@@ -751,17 +755,17 @@ Theorem root_accuracy_is_relative : forall e index c1 c2 velocityMid fields dPhi
   let Tout30 := fst (deltaToTmunu e index fields velocityMid D) in
   let Tout33 := snd (deltaToTmunu e index fields velocityMid D) in
   let F := fun T : R => temperatureProfileEqLHS e fields dPhidz T (c1 - Tout30) (c2 - Tout33) in
-  let tmin := minimize_bounded e F 0 (2 * Rmax Tplus Tminus) in
+  let tmin := minimize_bounded e F 0 (2 * Rmax Tplus Tminus) (XATOL Tplus Tminus) in
   findPlasmaProfilePoint e index c1 c2 velocityMid fields dPhidz D Tplus Tminus = Some (T, v) ->
   (T, v) <> (0, 0) -> F tmin < 0 ->
   (forall a b xt rt, F a < 0 -> 0 <= F b ->
      Rmin a b <= root_bracketed e F a b xt rt <= Rmax a b /\
      exists r, Rmin a b <= r <= Rmax a b /\ F r = 0 /\ Rabs (root_bracketed e F a b xt rt - r) <= xt + rt * Rabs r) ->
   exists r lo hi, lo <= r <= hi /\ lo <= T <= hi /\ F r = 0 /\
-    Rabs (T - r) <= 1 / 10 ^ 10 + errTol e / 10 * Rabs r /\
+    Rabs (T - r) <= 1 / 10 ^ 10 * Tnucl e + errTol e / 10 * Rabs r /\
     forall L, 0 <= L ->
       (forall x y, lo <= x <= hi -> lo <= y <= hi -> Rabs (F x - F y) <= L * Rabs (x - y)) ->
-      Rabs (F T) <= L * (1 / 10 ^ 10 + errTol e / 10 * Rabs r).
+      Rabs (F T) <= L * (1 / 10 ^ 10 * Tnucl e + errTol e / 10 * Rabs r).
 Proof. intros e index c1 c2 velocityMid fields dPhidz D Tplus Tminus T v. exact (point_accuracy e index c1 c2 velocityMid fields dPhidz D Tplus Tminus T v). Qed.
 Print Assumptions root_accuracy_is_relative.
 
@@ -798,7 +802,7 @@ Theorem success_implies_T33_refuted :
       + (- Tp 0%nat * derivT e (fields 0%nat) (Tp 0%nat)) * gammaSq (vp 0%nat) * vp 0%nat ^ 2
       + snd (deltaToTmunu e 0 (fields 0%nat) velocityMid D) - c2 > 0.
 Proof.
-  set (e := mk_env (1 / 1000) (fun _ T => - 4 * T ^ 3) (fun _ T => - T ^ 4) 1 [] (fun _ _ _ => 1) (fun _ a _ _ _ => a)).
+  set (e := mk_env (1 / 1000) (fun _ T => - 4 * T ^ 3) (fun _ T => - T ^ 4) 1 [] (fun _ _ _ _ => 1) (fun _ a _ _ _ => a)).
   set (D := mk_Deltas (fun _ _ => 0) (fun _ _ => 0) (fun _ _ => 0) (fun _ _ => 0)).
   assert (Hd : forall f v, deltaToTmunu e 0 f v D = (0, 0)).
   { intros f v. apply deltaToTmunu_zero. intro i. repeat split; reflexivity. }
@@ -834,12 +838,12 @@ Print Assumptions success_implies_T33_refuted.
     of the conservation theorems at T = 1, s1 = -1 *)
 Example hypotheses_satisfiable :
   let e := mk_env (1 / 1000) (fun _ T => - 4 * T ^ 3) (fun _ T => - T ^ 4) 1 [mk_particle 12 (fun _ => 1)]
-                  (fun _ a _ => a) (fun _ a _ _ _ => a) in
+                  (fun _ a _ _ => a) (fun _ a _ _ _ => a) in
   0 < - 1 * derivT e [] 1 /\ (-1 : R) <> 0 /\ -1 < plasmaVelocity e [] 1 (-1) < 0.
 Proof.
   cbn [derivT]. split; [lra|]. split; [lra|].
   pose proof (velocity_T30 (mk_env (1 / 1000) (fun _ T => - 4 * T ^ 3) (fun _ T => - T ^ 4) 1 [mk_particle 12 (fun _ => 1)]
-                  (fun _ a _ => a) (fun _ a _ _ _ => a)) [] 1 (-1)) as H.
+                  (fun _ a _ _ => a) (fun _ a _ _ _ => a)) [] 1 (-1)) as H.
   unfold enthalpy in H. cbn [derivT] in H.
   destruct H as [E [[L U] _]]; [lra|lra|]. split; [exact L|].
   set (v := plasmaVelocity _ [] 1 (-1)) in *.
